@@ -73,6 +73,36 @@ type Backend struct {
 	// PutHook, when set, sees every value that reaches the wrapped store
 	// (plain puts and puts inside transactions), before it is written.
 	PutHook func(key string, value []byte)
+
+	holdSub  string        // Get results for keys containing this are held back ...
+	holdCh   chan struct{} // ... until this channel is closed
+	held     int
+}
+
+// HoldGets makes every Get of a key containing sub wait AFTER the underlying read has
+// returned (the caller has a value in hand that may go stale) until release is called.
+// Used to pin one background reader (e.g. a lease-restore worker) at that point.
+func (b *Backend) HoldGets(sub string) (release func()) {
+	ch := make(chan struct{})
+	b.mu.Lock()
+	b.holdSub, b.holdCh = sub, ch
+	b.mu.Unlock()
+	var once sync.Once
+	return func() {
+		once.Do(func() {
+			b.mu.Lock()
+			b.holdSub, b.holdCh = "", nil
+			b.mu.Unlock()
+			close(ch)
+		})
+	}
+}
+
+// Held reports how many Gets are currently waiting in HoldGets.
+func (b *Backend) Held() int {
+	b.mu.Lock()
+	defer b.mu.Unlock()
+	return b.held
 }
 
 type TxBackend struct {
@@ -370,6 +400,19 @@ func (b *Backend) Get(ctx context.Context, key string) (*physical.Entry, error) 
 	}
 	e, err := b.inner.Get(ctx, key)
 	b.note(seq, err)
+	b.mu.Lock()
+	ch := b.holdCh
+	hold := ch != nil && b.holdSub != "" && strings.Contains(key, b.holdSub) && b.held == 0
+	if hold {
+		b.held++
+	}
+	b.mu.Unlock()
+	if hold {
+		<-ch
+		b.mu.Lock()
+		b.held--
+		b.mu.Unlock()
+	}
 	b.after("get", key)
 	return e, err
 }
